@@ -179,6 +179,13 @@ def check_store(ctx, fi, ev, tag, E, roots, vtag, preds):
   # arms
   old_true = pure_projection(t_arm, roots)
   old_false = pure_projection(f_arm, roots)
+  part = tag.split('.')[-1] if '.' in tag else None
+  if part in ('quantized', 'diagonal', 'bucket_size') and old_true:
+    from ..lib import path_str as _ps
+    suffix_ok = t_arm.op == 'attr' and t_arm.args[1] == part
+    ctx.ob('C03.G2', fn, f'{tag}: old arm is the same part', suffix_ok,
+           f'the value kept for `{part}` must be the incoming preconditioner\'s `{part}`; got `{show(t_arm, maxdepth=3)[:100]}`',
+           ctx.loc(fi), sample=f'old arm = prev.{part}')
   ctx.ob('C03.G2', fn, f'{tag}: polarity', old_true and not old_false,
          ('old value is selected when the predicate is FALSE (arms swapped)' if old_false and not old_true else
           f'true arm of the gate must be the incoming preconditioner: true=`{show(t_arm, maxdepth=3)[:100]}` false=`{show(f_arm, maxdepth=3)[:100]}`'),
